@@ -44,6 +44,8 @@ import (
 //	mk <exists|del|plset|mget> <hexarg>…       multi-key command over partitions, repeats allowed    → canonical reply
 //	pipe <cmd>|<cmd>|…                         ONE pipeline (cmd = hexargs joined by ','): set / get / exists / del; a SET
 //	                                           may carry a key no store accepts                      → canonical replies
+//	plcount <hexarg>…                          ONE PLSET request with any number of arguments (keys valid, hosted): how many
+//	                                           replies it gets (Lean driver: Z.Props.C11Plset.replies)  → replies=<n>
 //	scan <cmd> <table> <type> <count|-> <hexmatch|->   client loop "feed the cursor back until it is empty" for
 //	                                           scan | revscan | advscan | advrevscan | fullscan, and scan+ | revscan+ (the
 //	                                           client repairs the cursor, see smScanLoop)            → n=<keys> rounds=<r>
